@@ -506,6 +506,18 @@ class ParseLines:
         item.children.append(lines[startpos])
         del lines[startpos]
 
+    @staticmethod
+    def is_term_with_description(prefix, item):
+        """'; term : description': the description follows the term directly, so the
+        item ends with this line (lines like ';* x' start the next item)"""
+        if prefix != ";" or not item.children:
+            return False
+        first = item.children[0]
+        return first.lineprefix == ";" and any(
+            child.type == Token.t_special and child.text == ":"
+            for child in first.children
+        )
+
     def collect_items(
         self, lines, startpos, prefix, node, newitem, endtag, description_data
     ):
@@ -519,6 +531,7 @@ class ParseLines:
                 startpos < len(lines) - 1
                 and prefix == self.getchar(lines[startpos])
                 and len(lines[startpos].lineprefix) > 1
+                and not self.is_term_with_description(prefix, item)
             ):
                 self.append_line(lines, startpos, item, endtag)
 
